@@ -173,7 +173,7 @@ func drawC18Subject(t *rapid.T) c18Subject {
 		m = GenAny(t, p)
 	}
 	sparse := len(m.Comps) == 0 || m.CertRef == nil || m.VSI == nil || (p == P2 && m.BootSeed == nil) || (p == P1 && m.Profile == nil)
-	kind := rapid.SampledFrom([]string{"literal", "decoded-cbor", "decoded-json", "setters", "evidence-decoded", "evidence-signed", "extension", "extension-ptr-embedded"}).Draw(t, "subject")
+	kind := rapid.SampledFrom([]string{"literal", "decoded-cbor", "decoded-json", "setters", "evidence-decoded", "evidence-signed", "extension", "extension-ptr-embedded", "extension-p1-ptr-receiver"}).Draw(t, "subject")
 	if p == P2 && (kind == "literal" || kind == "decoded-cbor") && rapid.IntRange(0, 5).Draw(t, "samenonces") == 0 {
 		// a nonce array whose entries are all the same value
 		n := drawBytes(t, drawHashLen(t, "samenonce.len"), "samenonce")
@@ -184,6 +184,27 @@ func drawC18Subject(t *rapid.T) c18Subject {
 		m.Nonces = &ns
 	}
 	switch kind {
+	case "extension-p1-ptr-receiver":
+		// a profile-1 derived extension with pointer-receiver codec methods;
+		// in the no-measurements form the (empty) component container may
+		// still be in place next to the flag
+		m = GenValid(t, P1, true)
+		m.Profile = sp(P1Name)
+		b, err := m.BuildSetters()
+		if err != nil {
+			t.Fatalf("VERIF-INFRA: %v", err)
+		}
+		n := PtrRecvP1Name
+		c := &PtrRecvP1Claims{P1Claims: *(b.(*psatoken.P1Claims))}
+		c.Profile, c.CanonicalProfile = &n, n
+		if c.NoSwMeasurements != nil && genBool.Draw(t, "keepcontainer") {
+			c.SwComponents = &psatoken.SwComponents[*psatoken.SwComponent]{}
+		}
+		if genBool.Draw(t, "extra") {
+			x := int64(5)
+			c.Extra = &x
+		}
+		return c18Subject{desc: kind, claims: c, sparse: true}
 	case "extension-ptr-embedded":
 		// an extension whose optional claim group is embedded BY POINTER and
 		// absent, with pointer-receiver codec methods (the object itself,
@@ -333,7 +354,7 @@ func drawC18Subject(t *rapid.T) c18Subject {
 
 func TestC18_ReadOnly(t *testing.T) {
 	st := NewStats("C18", "TestC18_ReadOnly", "rapid: a subject (claims-set of either profile as struct literal / via setters / decoded from CBOR with permuted and extra keys / decoded from JSON / an extension-profile instance; valid or with rule deviations; or an Evidence, decoded or freshly signed) and a random sequence of 1..30 read-side calls {Validate, each of the 10 getters, all getters, Encode CBOR/JSON, validate-and-encode CBOR/JSON, component-container Validate/Values/IsEmpty, Evidence.MarshalJSON / GetInstanceID / GetImplementationID / Verify with right, wrong, other-algorithm and nil key}. Oracle: the reflect-based deep fingerprint of everything a caller can reach (exported fields, pointers, slices, the component container) is identical before and after every call; every call repeated immediately returns the identical result; Observe (all getters + validity + both encodings) is identical at the end; Verify outcomes are stable; byte slices returned by earlier encode calls keep their content while other claims-sets are encoded in between. Non-trivial = sequence contains an encode or validate call on a set with an empty component container or an absent optional claim; distinct = subject kind + class of subject + op sequence")
-	st.Require = []string{"literal", "decoded-cbor", "decoded-json", "setters", "evidence-decoded", "evidence-signed", "extension", "extension-ptr-embedded", "sparse"}
+	st.Require = []string{"literal", "decoded-cbor", "decoded-json", "setters", "evidence-decoded", "evidence-signed", "extension", "extension-ptr-embedded", "extension-p1-ptr-receiver", "sparse"}
 	defer st.Flush(t)
 	withExtProfiles(func() {
 		rapid.Check(t, func(t *rapid.T) {
